@@ -48,10 +48,20 @@ def rule_pieces(run, F, cfg):
            f"every slice in apply_removeparam is a slice of request.original_url ({len(idx)} slices; bases {sorted(bases)})",
            site=f.loc(idx[0][0]) if idx else "", config=cfg)
     ranges = [f.expr_operand(t["args"][1]) for b, t in idx]
-    q = r"memchr::memchr\(63, arg:request\.original_url\)@Some\.0"
-    head = any(re.match(r"^std::ops::Range::Range\{start: 0, end: " + q + r"\}$", r) for r in ranges)
+    head = any(re.match(r"^std::ops::Range::Range\{start: 0, end: memchr::memchr\(63, .*arg:request\.original_url.*\)@Some\.0\}$", r)
+               for r in ranges)
     run.ob("C14.1.piece-provenance", "head=url[0..first-?]", head,
-           "the kept head is url[0..i] with i = memchr('?', url)", config=cfg)
+           "the kept head is url[0..i] with i = memchr('?', <prefix of url>)", config=cfg)
+    # the '?' that starts the query is searched only BEFORE the first '#': a '?' inside the fragment is not a query
+    qs = [f.expr_operand(t["args"][1]) for b, t in f.calls(r"^memchr::memchr$") if f.expr_operand(t["args"][0]) == "63"]
+    FRAG = (r"std::option::Option::unwrap_or\(memchr::memchr\(35, arg:request\.original_url\), "
+            r"(std::string::String|core::str)::len\(arg:request\.original_url\)\)")
+    ok_q = len(qs) == 1 and bool(re.match(r"^<std::string::String as std::ops::Index<I>>::index\(arg:request\.original_url, "
+                                          r"std::ops::RangeTo::RangeTo\{end: " + FRAG + r"\}\)$", qs[0]))
+    run.ob("C14.1.piece-provenance", "query-starts-before-fragment", ok_q,
+           "the `?` that opens the query is searched in url[..f] where f is the first `#` (or the end): in "
+           "`https://host/#frag?x=1` the `?x=1` is part of the fragment, which must be preserved byte for byte "
+           f"(haystack of the `?` search: {[q_[:140] for q_ in qs]})", site=f.loc(0), config=cfg)
     tail = [r for r in ranges if r.startswith("std::ops::RangeFrom::RangeFrom{start: φ{")]
     ok_t = False
     for r in tail:
